@@ -143,6 +143,20 @@ template <class T> static void affine (Gen<T>& g)
             emitM<T> ("affine-singular", s3);
         }
     }
+    // cancelling determinants: every entry near one, two small singular values (condition about 5 / d, far below 1 / eps);
+    // the cofactor expansion of the determinant loses cond^2 digits, elimination loses cond
+    {
+        int k = 5 + (int) g.rng.below ((uint32_t) (std::numeric_limits<T>::digits / 2 - 3));
+        T d = (T) std::ldexp (1.0, -k);
+        Matrix33<T> c3 ((T) 1 + d, 1, 1, 1, (T) 1 - d, 1, 1, 1, (T) 1 + d);
+        emitM<T> ("cancelling", c3);
+        Matrix44<T> c4;
+        for (int i = 0; i < 3; ++i) for (int j = 0; j < 3; ++j) c4[i][j] = c3[i][j];
+        c4[3][0] = 2; c4[3][1] = 3; c4[3][2] = 5;
+        emitM<T> ("cancelling-affine", c4);
+        c4[3][3] = std::nextafter ((T) 1, (T) 2);
+        emitM<T> ("cancelling-affine+ulp", c4);
+    }
     // projective with a clearly non-zero last column and zero translation
     b = a; b[1][2] = (T) 0.5; b[2][1] = 0; emitM<T> ("projective", b);
     b = a; b[0][2] = (T) -0.25; b[2][0] = 0; emitM<T> ("projective", b);
